@@ -37,6 +37,10 @@ def layout_of(cmd):
     out = {}
     n = S.CDB[cmd.std]["length"]
     std = [(8 * b + 7 - msb, width) for (b, msb, width) in S.CDB[cmd.std]["fields"].values()]
+    if S.CDB[cmd.std].get("sa_field"):
+        b_, msb_, width_ = S.CDB[cmd.std]["sa_field"]
+        std.append((8 * b_ + 7 - msb_, width_))
+    std.append((0, 8))  # OPERATION CODE
     for k, v in cmd.cls._cdb_bits.items():
         mask, off = v
         w = bin(mask).count("1")
